@@ -150,8 +150,8 @@ func (storage *tsstoreImpl) writeSnapshot(s *shard) {
 		s.SnapShotter.RaftFlushC <- true
 		atomic.StoreUint32(&s.SnapShotter.RaftFlag, 1)
 	}
-	verifhook.Yield("writeSnapshot.afterSwap")
 	s.snapshotLock.Unlock()
+	verifhook.Yield("writeSnapshot.afterSwap")
 
 	start := time.Now()
 	s.indexBuilder.Flush()
